@@ -176,6 +176,31 @@ def run_conversion_worlds(st):
                 validator = Draft202012Validator(schema)
                 if not validator.is_valid(out):
                     st.violation({"label": "world:" + name, "signature": {"kind": "invalid_output", "world": name, "keyword": deciding_keyword(validator, out)}, "what": f"{name}: serialize gives {out!r} which does not validate against {json.dumps(schema)[:300]}"[:600]})
+        # a serialized method registered from outside the class *after* a first serialization: the schema (not
+        # cached) lists it at once, the serialized data must carry it too
+        for how in ("owner", "free_function"):
+            m2 = exec_source(PRELUDE + "@dataclass\nclass Late:\n    a: int = 0\n@dataclass\nclass HoldsLate:\n    l: Late = field(default_factory=Late)\n    ls: List[Late] = field(default_factory=list)\n")
+            try:
+                apischema.serialize(m2.Late, m2.Late())
+                apischema.serialize(m2.HoldsLate, m2.HoldsLate(m2.Late(), [m2.Late()]))
+                if how == "owner":
+                    exec("def _total(self) -> int:\n    return self.a + 1\nserialized('total', owner=Late)(_total)\n", m2.__dict__)
+                else:
+                    exec("@serialized\ndef total(l: Late) -> int:\n    return l.a + 1\n", m2.__dict__)
+                for name, tp, v in (("Late", m2.Late, m2.Late()), ("HoldsLate", m2.HoldsLate, m2.HoldsLate(m2.Late(), [m2.Late()]))):
+                    st.case("late_serialized", how, name)
+                    schema = serialization_schema(tp)
+                    out = apischema.serialize(tp, v)
+                    validator = Draft202012Validator(schema)
+                    if "total" not in json.dumps(schema):
+                        st.count("late_serialized_method_not_in_schema")
+                    if not validator.is_valid(out):
+                        st.violation({"label": "world:late_serialized", "signature": {"kind": "invalid_output", "world": "late_serialized:" + how, "keyword": deciding_keyword(validator, out)}, "what": f"after registering a serialized method on {name} ({how}) following a first use: serialize gives {out!r} which does not validate against {json.dumps(schema)[:300]}"[:600]})
+            except Exception as e:
+                st.violation({"label": "world:late_serialized", "signature": {"kind": "world_exception", "world": "late_serialized:" + how, "exc": type(e).__name__}, "what": f"late serialized ({how}): {e!r}"[:300]})
+            finally:
+                sys.modules.pop(m2.__name__, None)
+                apischema.cache.reset()
     finally:
         sys.modules.pop(m.__name__, None)
         apischema.cache.reset()
